@@ -79,6 +79,19 @@ func rootRadicands(r *rng, deg int, count int, tier string) []radicand {
 		add("wordsize", new(big.Int).Rsh(new(big.Int).Mul(d, big.NewInt(int64(2+r.intn(7)))), 3), nearTop) // mid-size remainders, denominator 2^bits - c
 		add("wordsize", big.NewInt(int64(1+r.intn(50))), d)
 	}
+	// HUGE perfect powers and their neighbours, always present: (10^j)^deg ± 1 and m^deg ± 1 for m of
+	// 15–40 digits — the increment of the digit loop outgrows one, two, three machine words while
+	// the remainder stays tiny (a remainder/increment size shortcut must not end the root)
+	for _, j := range []int{10, 15, 19, 20, 25, 32, 40} {
+		for _, m := range []*big.Int{pow(10, j), r.bigRand(j)} {
+			p := new(big.Int).Exp(m, big.NewInt(int64(deg)), nil)
+			out = append(out, radicand{"hugepower+1", new(big.Int).Add(p, one), one, 2*j + 12, false})
+			if j%2 == 0 {
+				out = append(out, radicand{"hugepower-1", new(big.Int).Sub(p, one), one, 2*j + 12, false})
+				out = append(out, radicand{"hugepower", p, one, j + 5, false})
+			}
+		}
+	}
 	// word-size perfect powers and their neighbours, always present, through EVERY constructor: a
 	// machine-float or machine-word short cut in one constructor is exact below 2^53 and wrong
 	// (or right by luck) above — 10^18 ± 1, (2^31)^2 + 1, k^deg ± 1 for random k at every size
@@ -359,6 +372,16 @@ func genEndProbes(e *emitter, r *rng, tier string) {
 			emitScriptLine(e, v, fmt.Sprintf("%s:%s:%s", kind, p, q), strings.Join(st, ";"))
 		}
 		e.count("C03.endprobe")
+	}
+	// a root read only through views, after the Number itself has been dropped and collected: an
+	// irrational root still never ends, an exact one ends where it must
+	for i := 0; i < n/4; i++ {
+		kind := r.pickS([]string{"S", "C"})
+		rad := int64(2 + r.intn(200))
+		for v := 1; v <= 3; v++ {
+			emitScriptLine(e, v, fmt.Sprintf("D%s:%d:1", kind, rad), fmt.Sprintf("ws:0:%d;we:1:%d;fwd:1:25;fwd:2:400;at:1:%d", 1+r.intn(3), 120+r.intn(100), 150+r.intn(100)))
+		}
+		e.count("C03.base_dropped_and_collected")
 	}
 }
 
